@@ -44,6 +44,8 @@ pub struct Report {
     pub machinery: Vec<String>,
     /// Distinct rejection responses seen (status + body), per encoding.
     pub reject_shapes: BTreeSet<String>,
+    /// Distinct answers to the path-level targets (target class, status, content type).
+    pub path_level_shapes: BTreeSet<String>,
 }
 
 impl Report {
@@ -277,6 +279,7 @@ struct Ctx<'a> {
     history: &'a [Event],
     model: &'a Model,
     prepared: Prepared,
+    lite: bool,
     rep: Report,
 }
 
@@ -390,6 +393,11 @@ fn calls_json(trace: &StoreTrace) -> Value {
 #[derive(Clone, Debug, Default)]
 pub struct Select {
     pub only_phase: Option<String>,
+    /// Quick tier: four redundant header spellings (a second garbage token,
+    /// the empty bearer token, two of the three malformed headers) are left
+    /// out and the two path-level targets get the minimal-params bodies and
+    /// the probes only.
+    pub lite: bool,
 }
 
 impl Select {
@@ -412,7 +420,7 @@ pub async fn run_state(tables: &Tables, root: Root, history: &[Event], select: &
         m
     };
     let bs = bodies(tables);
-    let mut cx = Ctx { tables, root, history, model: &model, prepared: Prepared::new(&bs), rep: Report::default() };
+    let mut cx = Ctx { tables, root, history, model: &model, prepared: Prepared::new(&bs), lite: false, rep: Report::default() };
     cx.rep.canon = model.canon();
     for b in &bs {
         if let Some(n) = b.method()
@@ -421,7 +429,12 @@ pub async fn run_state(tables: &Tables, root: Root, history: &[Event], select: &
             cx.rep.methods_without_params.insert(n.to_string());
         }
     }
-    let ps = principals(&model);
+    let mut ps = principals(&model);
+    if select.lite {
+        let dropped = ["timing-dummy", "empty-bearer", "malformed:basic", "malformed:no-token"];
+        ps.retain(|p| !dropped.contains(&p.label.as_str()));
+    }
+    cx.lite = select.lite;
     let ts = targets();
 
     if select.wants("reject") {
@@ -640,11 +653,27 @@ async fn phase_reject(cx: &mut Ctx<'_>, w: &mut World, ps: &[Principal], ts: &[T
             let tsig = t.sig_class(m, holder);
             for enc in [Enc::Cbor, Enc::Json] {
                 for (bi, b) in bs.iter().enumerate() {
+                    if cx.lite && acc == Access::PathLevel && b.variant() == Some(Variant::BadParams) {
+                        continue;
+                    }
                     let req = cx.prepared.request(bi, &t.path, p.auth.clone(), enc, victim);
                     let (resp, trace) = w.send(&req).await;
                     cx.rep.add("evaluations", 1);
                     if acc == Access::PathLevel {
                         cx.rep.add("cells_path_level", 1);
+                        if pi == 0 && bi == 0 {
+                            let ct = resp
+                                .headers
+                                .iter()
+                                .find(|(k, _)| k == "content-type")
+                                .map(|(_, v)| String::from_utf8_lossy(v).to_string())
+                                .unwrap_or_else(|| "-".into());
+                            cx.rep.path_level_shapes.insert(format!(
+                                "{tclass}: {} {ct} {:?} (same for every credential, before authorization)",
+                                resp.status,
+                                String::from_utf8_lossy(&resp.body)
+                            ));
+                        }
                         cx.distinct("path-level", p, &tclass, Some(enc), Some(b));
                         if (200..300).contains(&resp.status) || !trace.calls.is_empty() || !trace.mutations.is_empty() {
                             cx.violate(
